@@ -429,8 +429,8 @@ class DHEat:
                 _close_socket(socket_dict, timedout_sockets[0])
                 del timedout_sockets[0]
 
-            # Open new sockets until we've hit the number of concurrent sockets, or if we exceeded the number of maximum connections.
-            while (len(socket_dict) < concurrent_sockets) and (len(socket_dict) + num_opened_connections < max_connections):
+            # Open new sockets until we've hit the number of concurrent sockets, or if we exceeded the number of maximum connections.  The number of connection attempts is bounded as well: a target that accepts connections but never sends a banner (or refuses them) must not be re-dialed in a tight loop until the timer runs out.
+            while (len(socket_dict) < concurrent_sockets) and (len(socket_dict) + num_opened_connections < max_connections) and (num_attempted_connections < max_connections):
                 s = socket.socket(target_address_family, socket.SOCK_STREAM)
                 s.setblocking(False)
 
